@@ -180,10 +180,16 @@ def run(ctx):
     for name, files in G.corpus():
         add('corpus', name, files)
 
+    # 1b. the four string literal forms x every escape kind, packed 150 statements per project
+    for k in range(12 if thorough else 3):
+        files, _ = G.string_form_project(G.string_form_statements(rng, 150))
+        add('string-forms', 'sf%d' % k, files)
+        cases[-1]['rows'] = [l for l in files['meson.build'].split('\n') if l.startswith('message(')]
+
     # 2. typing table and method table: the model classifies each single statement; all accepted
     #    ones run batched (exhaustive), rejected ones one project each (sampled in the quick tier)
     table = [('typing', i, s) for i, s in G.typing_table()] + [('method', i, s) for i, s in G.method_table()]
-    nprim = 8000 if thorough else 900
+    nprim = 12000 if thorough else 3000
     table += [('prim', i, 'x = ' + e) for i, e in G.prim_exprs(rng, nprim)]
     singles = [G.P(s + "\nmessage('#r', x, '$')\n") for _, _, s in table]
     oom_table = 0
@@ -195,13 +201,17 @@ def run(ctx):
         for b in range(0, len(okrows), 90):
             body = ''.join("%s\nmessage('#t%s', x, '$')\n" % (s, G.b36(b + j)) for j, (_, _, s) in enumerate(okrows[b:b + 90]))
             add('table-accepted', 'batch%d' % (b // 90), G.P(body))
+            cases[-1]['rows'] = [s for _, _, s in okrows[b:b + 90]]
         nbad = len(badrows) if thorough else 70
         nrej = len(badrows)
         if thorough:
             # the typing / method tables completely; of the random primitive applications a sample
             badrows = [r for r in badrows if r[0] != 'prim'] + rng.sample([r for r in badrows if r[0] == 'prim'], min(300, len([r for r in badrows if r[0] == 'prim'])))
         for k, i, s in (badrows if thorough else rng.sample(badrows, min(nbad, len(badrows)))):
-            add('table-rejected', '%s: %s' % (k, i), G.P("message('#a', 1, '$')\n" + s + "\nmessage('#r', x, '$')\n"))
+            # the rejected statement ends a generated valid program, so that the same meson run
+            # also compares a few dozen ordinary statements
+            g = G.ProgGen(rng, max_depth=rng.choice([2, 3]))
+            add('table-rejected', '%s: %s' % (k, i), g.program(rng.randint(5, 14), err=[s, "message('#r', x, '$')"], at_end=True))
         ctx.extra['table'] = {'rows': len(table), 'accepted_by_model': len(okrows), 'rejected_by_model': nrej,
                               'out_of_model': oom_table, 'rejected_run': len(badrows) if thorough else min(nbad, len(badrows)),
                               'random_primitive_applications': nprim,
@@ -209,17 +219,18 @@ def run(ctx):
 
     # 3. structured random programs (mostly valid) and the same with one erroneous statement
     nvalid = 1600 if thorough else 90
-    nerr = 1400 if thorough else 60
+    nerr = 1400 if thorough else 30
     if True:
         # every erroneous statement of the list once per run, alone
         for j, e in enumerate(G.ERRORS):
-            add('error-alone', 'a%d:%s' % (j, e[0]), G.P("message('#a', 1, '$')\n" + '\n'.join(e) + "\nmessage('#b', 1, '$')\n"))
+            g = G.ProgGen(rng, max_depth=rng.choice([2, 3]))
+            add('error-alone', 'a%d:%s' % (j, e[0]), g.program(rng.randint(5, 14), err=list(e) + ["message('#b', 1, '$')"], at_end=True))
     fixed = len(cases)
     rnd = []
     for i in range(max(nvalid, nerr)):
         if i < nvalid:
             g = G.ProgGen(rng, max_depth=rng.choice([2, 3, 4, 5]))
-            rnd.append({'kind': 'random-valid', 'name': 'v%d' % i, 'files': g.program(rng.randint(12, 34))})
+            rnd.append({'kind': 'random-valid', 'name': 'v%d' % i, 'files': g.program(rng.randint(30, 70) if not thorough else rng.randint(12, 60))})
         if i < nerr:
             g = G.ProgGen(rng, max_depth=rng.choice([2, 3, 4]))
             e = G.ERRORS[i % len(G.ERRORS)]
@@ -258,12 +269,18 @@ def run(ctx):
             out_of_model += 1
             continue
         ctx.count((c['kind'], c['name'], c['files']['meson.build']), nontrivial=True)
+        if key_of(ri) == key_of(rm):
+            # every statement of a packed project is an assertion of its own: its tagged message
+            # was compared
+            for row in c.get('rows', []):
+                ctx.count(('row', row), nontrivial=True)
         cls_dist[rm['cls']] = cls_dist.get(rm['cls'], 0) + 1
         if key_of(ri) != key_of(rm):
             bad.append(idx)
     ctx.cov['traces_validated_against_impl'] = len(cases) - out_of_model
     ctx.extra['statements_evaluated'] = nstmt
     ctx.extra['messages_compared'] = sum(len(r['msgs']) for r in impl)
+    ctx.extra['projects_run'] = len(cases)
     ctx.extra['out_of_model'] = out_of_model
     ctx.extra['input_distribution'] = {'projects_by_kind': dist, 'model_outcome_classes': cls_dist,
                                        'error_statement_kinds': len(G.ERRORS),
